@@ -40,17 +40,18 @@ pub(crate) struct SubSocketBackend {
 
 impl ForgetConn for SubSocketBackend {
     fn forget_conn(&self, peer_id: &PeerIdentity, conn: u64) {
-        let forgotten = self
-            .peers
-            .remove_if_sync(peer_id, |peer| peer.conn == conn)
-            .is_some();
-        if forgotten {
-            if let Some(monitor) = self.monitor().lock().as_mut() {
-                let _ = monitor.try_send(SocketEvent::Disconnected(peer_id.clone()));
-            }
-        }
+        // (all steps under the lock of the peer's bucket, see `backend::register`)
+        let registered = self.peers.entry_sync(peer_id.clone());
         if let Some(inner) = &self.fair_queue_inner {
             inner.lock().remove_conn(peer_id, conn);
+        }
+        if let scc::hash_map::Entry::Occupied(registered) = registered {
+            if registered.get().conn == conn {
+                let _ = registered.remove_entry();
+                if let Some(monitor) = self.monitor().lock().as_mut() {
+                    let _ = monitor.try_send(SocketEvent::Disconnected(peer_id.clone()));
+                }
+            }
         }
     }
 }
@@ -125,9 +126,8 @@ impl MultiPeerBackend for SubSocketBackend {
         crate::__verif::yield_point("sub.join.after_snapshot").await;
 
         let conn = next_conn();
-        self.peers
-            .upsert_async(peer_id.clone(), Peer::new(conn, send_queue))
-            .await;
+        let registered =
+            crate::backend::register(&self.peers, peer_id, Peer::new(conn, send_queue)).await;
         match &self.fair_queue_inner {
             None => {}
             Some(inner) => {
@@ -136,6 +136,7 @@ impl MultiPeerBackend for SubSocketBackend {
                     .insert_conn(peer_id.clone(), conn, recv_queue);
             }
         };
+        drop(registered);
     }
 
     fn peer_disconnected(&self, peer_id: &PeerIdentity) {
